@@ -434,7 +434,8 @@ fn run_avrod(t: &[&str]) -> (String, Vec<(String, String)>) {
         if *o != single {
             let mut tag = "oracle:chunk-dep".to_string();
             match avrod_first_cut_in_row(alg, &data, &cuts) {
-                Some("varint") => tag.push_str(" finding:avrod-varint-split"),
+                // a truncated varint is now "need more data"; what remains is that the fields of the
+                // row decoded before the cut are not rolled back (any cut inside a row body)
                 Some(_) => tag.push_str(" finding:avrod-partial-row"),
                 None => {}
             }
